@@ -63,6 +63,10 @@ def model_case(cops, cout):
             continue
         if li >= len(lines):
             break
+        if name == "refpk":
+            while li < len(lines) and lines[li].startswith("refpk "):
+                li += 1
+            continue
         ans = lines[li]
         li += 1
         if name in MODEL_OPS:
@@ -114,6 +118,11 @@ def answers(cops, cout):
             while li < len(lines) and lines[li].startswith("hdrpk "):
                 li += 1
             out.append((op, lines[start:li]))
+            continue
+        if name == "refpk":
+            while li < len(lines) and lines[li].startswith("refpk "):
+                out.append((op, lines[li]))
+                li += 1
             continue
         out.append((op, lines[li]))
         li += 1
